@@ -9,6 +9,12 @@ open Lean SE SE.Aoef SE.Paths
 def kindTable (f : Kind → List String) : Json :=
   Json.mkObj (Kind.all.map fun k => (k.name, toJson (f k)))
 
+/-- keys of the distinct reachable objects per kind, plus the reachable tag contents as (label, value) *pairs*
+    (`tag_pairs`: the tag entry of the kind table is a joined text, which is not injective in the pair) -/
+def reachTable (c : Collection) : Json :=
+  Json.mkObj ((Kind.all.map fun k => (k.name, toJson ((reachKeys c.trav k).eraseDups)))
+    ++ [("tag_pairs", toJson (((tagsOf c.trav).map fun t => (t.key, t.value)).eraseDups.map fun kv => [kv.1, kv.2]))])
+
 /-- one operation of the adapter protocol: `["to_aoef", x] | ["to_se", o] | ["from_id", i] | ["values"] | ["get_id", x]` -/
 def adapterStep {κ ι σ ω} [BEq κ] [BEq ι] [ToJson σ] [FromJson σ] [ToJson ω] [FromJson ω] [ToJson ι] [FromJson ι]
     (sp : Adapter.Spec κ ι σ ω) (a : Adapter κ ι σ ω) (j : Json) : Except String (Json × Adapter κ ι σ ω) := do
@@ -63,7 +69,7 @@ def handle (op : String) (a : Json) : Except String Json := do
   | "reach" =>
     -- keys of the distinct objects reachable from a collection, per kind
     let c : Collection ← fromJson? (← fld a "collection")
-    return kindTable (fun k => (reachKeys c.trav k).eraseDups)
+    return reachTable c
   | "op_save" =>
     -- the operational model of the save path (adapters as mutable tables, conversions in the code's call order)
     let c : Collection ← fromJson? (← fld a "collection")
@@ -75,7 +81,7 @@ def handle (op : String) (a : Json) : Except String Json := do
     let steps ← fldArr a "steps"
     let outs ← steps.mapM fun st => do
       let c : Collection ← fromJson? (← fld st "collection")
-      pure (kindTable (fun k => (reachKeys c.trav k).eraseDups))
+      pure (reachTable c)
     return arrJ outs
   | "adapter_ops" =>
     -- an operation sequence on a fresh `UserAdapter` / `TagAdapter` (operational model of adapters.py)
